@@ -82,6 +82,7 @@ var regimes = []string{"mix", "v1only", "v2only"}
 func runTreeHistory(r *mon.Run, stream uint64, regime string, size int) {
 	rng := r.RNG(stream)
 	p := chainlab.RandomParams(regime, rng)
+	p.HiDiff = stream%5 == 4 // every fifth tree: non-zero "sufficiently heavier" margin
 	env := chainlab.NewEnv(p)
 	t := chainlab.NewTree(env, rng)
 	cs := chainCase{Kind: "tree", Stream: stream, Params: p}
@@ -318,7 +319,7 @@ func runValidatedScenario(r *mon.Run, stream uint64) {
 }
 
 func runC01(r *mon.Run, replay string) {
-	r.Rule("random fork trees per regime (mix / v1only / v2only) with single-field corruptions, submitted in PRNG schedules (split, reversed, duplicated, orphan-first, branch-mixing batches); plus the enumerated class 'invalid block at depth d of a heavier fork of length L forking k below the tip' for all d<=L<=6,k<=6 per regime, resubmission with two more blocks, and pre-validated v2 batches; every call is audited (tip, state bytes vs pure consensus replay, index, blocks, states, element buckets and served proofs, unchanged view on failure); distinct = (scenario shape, regime, stream, reorgs, rollbacks)")
+	r.Rule("random fork trees per regime (mix / v1only / v2only) with single-field corruptions, submitted in PRNG schedules (split, reversed, duplicated, orphan-first, branch-mixing batches); plus the enumerated class 'invalid block at depth d of a heavier fork of length L forking k below the tip' for all d<=L<=6,k<=6 per regime, resubmission with two more blocks, pre-validated v2 batches (also on top of a header-checked invalid block), and leap-frogging near-tie forks on networks with a non-zero sufficiently-heavier margin; every call is audited (tip, state bytes vs pure consensus replay, index, blocks, states, element buckets and served proofs, unchanged view on failure); distinct = (scenario shape, regime, stream, reorgs, rollbacks)")
 	r.Assume("go.sia.tech/core/consensus is the oracle for block validity and state")
 	r.Assume("blocks with timestamps > now+3h are refused as future blocks (not a consensus rule); generated ones are either hours in the past or > now+4h")
 	nTrees := r.Pick(600, 5000)
@@ -352,11 +353,16 @@ func runC01(r *mon.Run, replay string) {
 		runInvalidForkScenario(r, uint64(500000+i), s.regime, s.d, s.L, s.k)
 	})
 	parallel(r.Pick(40, 600), func(i int) { runValidatedScenario(r, uint64(900000+i)) })
+	parallel(r.Pick(150, 2500), func(i int) { runNearTieScenario(r, uint64(910000+i)) })
+	parallel(r.Pick(80, 1200), func(i int) { runGhostScenario(r, uint64(920000+i)) })
 	r.Extra("invalid_fork_scenarios_enumerated", len(scs))
 	for _, reg := range regimes {
 		r.Floor("rollbacks_observed:"+reg, 1)
 	}
 	r.Floor("reorgs_observed", 10)
+	r.Floor("near_tie:submitted_heavier_within_margin", 10)
+	r.Floor("near_tie:submitted_sufficiently_heavier", 10)
+	r.Floor("prevalidated_on_invalid_ancestor:was_heavier", 10)
 	r.Floor("calls_audited", 500)
 	_ = sort.Strings
 	_ = strings.Join
